@@ -33,6 +33,7 @@ type c04Triple struct {
 type c04Run struct {
 	listeners  []string
 	upKinds    []string
+	storeLatencyUs int
 	cache      string // off, large, tiny
 	ttl        uint32
 	clients    int
@@ -154,6 +155,8 @@ func runWorkload(t *rapid.T, run c04Run, st *vfkit.Collector, label string) {
 		}
 		defer rd.Close()
 		store = rd
+		// the store answers at once, or after a latency under which the proxy's writes to it queue up
+		rd.Delay.Store(int64(time.Duration(run.storeLatencyUs) * time.Microsecond))
 		cfg.Cache = &CacheCfg{Redis: rd.URL()}
 		if run.cache == "tiny+store" {
 			cfg.Cache.MemSize = 6000
@@ -495,6 +498,12 @@ func runWorkload(t *rapid.T, run c04Run, st *vfkit.Collector, label string) {
 		classes = append(classes, "cache-hits")
 	}
 	if store != nil {
+		// nothing that was given back to the buffer pool may reach the store (as a key or inside a value)
+		for _, op := range store.Log() {
+			if bytes.Contains(op.Key, poisonRun) {
+				t.Fatalf("poison octets (released pool memory) in a key the proxy sent to the second-level store: %s %s", op.Cmd, vfkit.Hex(op.Key))
+			}
+		}
 		st.Class("store-hits", int(store.Hits.Load()))
 		st.Class("store-sets", int(store.Sets.Load()))
 	}
@@ -512,6 +521,7 @@ func genRun(t *rapid.T, cancelRich bool) c04Run {
 	run.listeners = rapid.Permutation(AllListenerKinds).Draw(t, "listeners")
 	run.upKinds = rapid.SliceOfNDistinct(rapid.SampledFrom([]string{"udp", "tcp", "tcp+pipeline", "tls", "tls+pipeline", "https", "quic", "h3"}), 2, 4, func(s string) string { return s }).Draw(t, "upstreams")
 	run.cache = rapid.SampledFrom([]string{"off", "large", "tiny", "tiny", "store", "tiny+store"}).Draw(t, "cache")
+	run.storeLatencyUs = rapid.SampledFrom([]int{0, 300, 2000}).Draw(t, "storeLatencyMicros")
 	run.ttl = rapid.SampledFrom([]uint32{1, 2, 60}).Draw(t, "ttl")
 	run.clients = rapid.IntRange(8, 48).Draw(t, "clients")
 	run.perClient = rapid.SampledFrom([]int{60, 150, 300}).Draw(t, "perClient")
